@@ -32,6 +32,19 @@ func init() {
 		c.MustCross("good-phior", c.P.Func("ctl/flow.PhiOrGood"), "sink", isPlainCallTo(sink), OnFalse("ready", FieldIs(ready)))
 		c.MustCross("bad-phior", c.P.Func("ctl/flow.PhiOrBad"), "sink", isPlainCallTo(sink), OnFalse("ready", FieldIs(ready)))
 	}})
+	registerControl(controlDef{Name: "E2/E3 through unexported helpers (result summaries, targets and releases inside helpers)", Bad: []string{"bad-helper-err", "bad-helper-target"}, Good: []string{"good-helper-err", "good-helper-bool", "good-helper-target", "good-helper-pair"}, Run: func(c *Ctx) {
+		sink := c.P.FuncObj("ctl/flow.sink")
+		check := c.P.FuncObj("ctl/flow.check")
+		verify := c.P.FuncObj("ctl/flow.verify")
+		acq := c.P.FuncObj("ctl/flow.acquire")
+		rel := c.P.FuncObj("ctl/flow.release")
+		c.MustCross("good-helper-err", c.P.Func("ctl/flow.HelperErrGood"), "sink", isPlainCallTo(sink), OnFalse("verify err", CallTo(verify)))
+		c.MustCross("bad-helper-err", c.P.Func("ctl/flow.HelperErrBad"), "sink", isPlainCallTo(sink), OnFalse("verify err", CallTo(verify)))
+		c.MustCross("good-helper-bool", c.P.Func("ctl/flow.HelperBoolGood"), "sink", isPlainCallTo(sink), OnTrue("check", CallTo(check)))
+		c.MustCross("good-helper-target", c.P.Func("ctl/flow.HelperTargetGood"), "sink", isPlainCallTo(sink), OnTrue("check", CallTo(check)))
+		c.MustCross("bad-helper-target", c.P.Func("ctl/flow.HelperTargetBad"), "sink", isPlainCallTo(sink), OnTrue("check", CallTo(check)))
+		c.Paired("good-helper-pair", c.P.Func("ctl/flow.HelperPairGood"), "h", isPlainCallTo(acq), isCallTo(rel))
+	}})
 	registerControl(controlDef{Name: "E3 pairing (defer, explicit, missing)", Bad: []string{"bad-pair"}, Good: []string{"good-pair", "good-pair2"}, Run: func(c *Ctx) {
 		acq := c.P.FuncObj("ctl/flow.acquire")
 		rel := c.P.FuncObj("ctl/flow.release")
